@@ -35,12 +35,123 @@ def describe(table):
     return out
 
 
+# ---- public surface of the table classes: every public name must be classified; the op generator of
+# harness/props/c11.py drives exactly DRIVEN (it reads this list), so a new public mutating method that nobody
+# drives makes the translator fail closed instead of silently escaping the check.
+DRIVEN = {'add': ['add_object', 'add_object_no_lock'], 'addm': ['add_objects', 'add_objects_no_lock'],
+          'remove': ['remove_object', 'remove_object_no_lock'], 'removem': ['remove_objects', 'remove_objects_no_lock'],
+          'update': ['update_object', 'update_object_no_lock'], 'updatem': ['update_objects', 'update_objects_no_lock'],
+          'clear': ['clear']}
+DRIVEN_VERSIONED = {'setver': ['set_version']}      # only the MDIB tables (side table handle_version_lookup)
+READONLY = {'find', 'find_no_lock', 'objects', 'lock'}
+SETUP = {'add_index'}                               # called by the constructors / mk_table before any object exists
+MUTATING_CALLS = {'add', 'update', 'pop', 'popitem', 'clear', 'remove', 'discard', 'append', 'extend', 'insert',
+                  'setdefault', 'sort', 'reverse', '__setitem__', '__delitem__'}
+
+
+def all_subclasses(cls):
+    out = []
+    for sub in cls.__subclasses__():
+        out.append(sub)
+        out.extend(all_subclasses(sub))
+    return out
+
+
+def check_surface():
+    import ast
+    import importlib
+    import inspect
+    import textwrap
+    for mod in ('sdc11073.mdib.providermdib', 'sdc11073.mdib.consumermdib', 'sdc11073.mdib.entityprotocol',
+                'sdc11073.provider.subscriptionmgr_base', 'sdc11073.provider.subscriptionmgr_async',
+                'sdc11073.consumer.subscription', 'sdc11073.mdib.mdibprotocol'):
+        try:
+            importlib.import_module(mod)
+        except ImportError:
+            pass
+    known = {multikey.MultiKeyLookup: 'generic', mdibbase._MultikeyWithVersionLookup: 'versioned-base',
+             mdibbase.DescriptorsLookup: 'descriptors', mdibbase.StatesLookup: 'states',
+             mdibbase.MultiStatesLookup: 'multistates'}
+    for sub in all_subclasses(multikey.MultiKeyLookup):
+        if sub not in known:
+            raise SystemExit(f'fail-closed: table class {sub.__module__}.{sub.__name__} is not driven by the op generator')
+    driven = {ep for eps in DRIVEN.values() for ep in eps}
+    driven_v = driven | {ep for eps in DRIVEN_VERSIONED.values() for ep in eps}
+    surface = {}
+    for cls, tag in known.items():
+        allowed = driven if cls is multikey.MultiKeyLookup else driven_v
+        required = driven if tag in ('generic', 'versioned-base') else driven_v
+        names = sorted(n for n in dir(cls) if not n.startswith('_'))
+        for n in names:
+            if n not in allowed and n not in READONLY and n not in SETUP:
+                raise SystemExit(f'fail-closed: public member {cls.__name__}.{n} is neither driven by the op generator '
+                                 'nor known to be read-only')
+        missing = sorted(required - set(names))
+        if missing:
+            raise SystemExit(f'fail-closed: {cls.__name__} lacks the entry points {missing} the op generator drives')
+        surface[tag] = [n for n in names if n in allowed]
+        # the members classified read-only must not write: no assignment / deletion through self, no mutating call
+        for n in names:
+            if n not in READONLY:
+                continue
+            member = inspect.getattr_static(cls, n)
+            func = member.fget if isinstance(member, property) else member
+            tree = ast.parse(textwrap.dedent(inspect.getsource(func)))
+            for node in ast.walk(tree):
+                bad = None
+                if isinstance(node, (ast.Assign, ast.AugAssign, ast.AnnAssign, ast.Delete)):
+                    tg = node.targets if isinstance(node, (ast.Assign, ast.Delete)) else [node.target]
+                    if any(isinstance(x, (ast.Attribute, ast.Subscript)) for x in tg):
+                        bad = 'assignment'
+                if isinstance(node, ast.Call) and isinstance(node.func, ast.Attribute) and node.func.attr in MUTATING_CALLS:
+                    bad = f'call of .{node.func.attr}()'
+                if bad:
+                    raise SystemExit(f'fail-closed: {cls.__name__}.{n} is classified read-only but contains an {bad}')
+    return surface
+
+
+def check_add_index_only_in_constructors():
+    """add_index is classified SETUP (not driven on populated tables): every call in the library must sit in an
+    __init__, i.e. run before any object is stored."""
+    import ast
+    import pathlib
+    root = pathlib.Path(multikey.__file__).parent
+    for path in sorted(root.rglob('*.py')):
+        tree = ast.parse(path.read_bytes())
+        for fn in ast.walk(tree):
+            if not isinstance(fn, (ast.FunctionDef, ast.AsyncFunctionDef)) or fn.name == '__init__':
+                continue
+            for node in ast.walk(fn):
+                if isinstance(node, ast.Call) and isinstance(node.func, ast.Attribute) and node.func.attr == 'add_index':
+                    raise SystemExit(f'fail-closed: add_index called outside a constructor ({path.name}:{node.lineno} in '
+                                     f'{fn.name}): index creation on a populated table is not driven by the op generator')
+
+
+def describe_version(table):
+    """which attributes _save_version reads: (key attribute, version attribute)"""
+    p = Probe()
+    table._save_version(p)
+    if len(p.seen) != 2 or list(table.handle_version_lookup.items()) != [(0, 0)]:
+        raise SystemExit(f'fail-closed: _save_version of {type(table).__name__} does not store one version under one '
+                         f'key: {p.seen}')
+    return p.seen
+
+
+surface = check_surface()
+check_add_index_only_in_constructors()
 tables = {'descriptors': describe(mdibbase.DescriptorsLookup()), 'states': describe(mdibbase.StatesLookup()),
           'multistates': describe(mdibbase.MultiStatesLookup())}
+version_attrs = {'descriptors': describe_version(mdibbase.DescriptorsLookup()),
+                 'states': describe_version(mdibbase.StatesLookup()),
+                 'multistates': describe_version(mdibbase.MultiStatesLookup())}
 lines = ['(* GENERATED on every run by harness/impl/gen_multikey_tables.py from src/sdc11073/mdib/mdibbase.py. *)',
          'From Coq Require Import List.', 'From SDC Require Import Multikey.Model.', 'Import ListNotations.']
 for tname, idx in tables.items():
     items = '; '.join(f'{k} {"true" if nk else "false"}' for _, k, nk, _ in idx)
     lines.append(f'(* {", ".join(f"{n}<-obj.{a}" for n, _, _, a in idx)} *)')
     lines.append(f'Definition {tname}_kinds : list ikind := [{items}].')
-print(json.dumps({'rel': 'Multikey/Gen_Tables.v', 'text': '\n'.join(lines) + '\n', 'tables': tables}))
+lines.append('(* public mutating entry points driven by the op generator (model op <- methods): '
+             + '; '.join(f'{k} <- {", ".join(v)}' for k, v in {**DRIVEN, **DRIVEN_VERSIONED}.items()) + ' *)')
+print(json.dumps({'rel': 'Multikey/Gen_Tables.v', 'text': '\n'.join(lines) + '\n', 'tables': tables,
+                  'entry_points': DRIVEN, 'entry_points_versioned': DRIVEN_VERSIONED, 'surface': surface,
+                  'version_attrs': version_attrs}))
